@@ -434,9 +434,9 @@ Section P.
   Lemma gset_vsign_none st b : g_vsign st = None -> gset_vsign (gwr st b) None = gwr st b.
   Proof. intros H. destruct st; cbn in *; subst; reflexivity. Qed.
 
-  Lemma fields_ok l : Forall good l -> forall st psigs start o A,
+  Lemma fields_ok l : Forall good l -> forall st psigs rest start o A,
     g_e st = e -> forallb gwf l = true -> forallb pre l = true ->
-    g_sig st = SStruct (psigs ++ map gsig l) -> g_vsign st = None -> dep_ok (g_dep st) ->
+    g_sig st = SStruct (psigs ++ map gsig l ++ rest) -> g_vsign st = None -> dep_ok (g_dep st) ->
     forallb (gdepth_ok (d_struct (g_dep st)) (d_array (g_dep st)) (dtot (g_dep st))) l = true ->
     start <= g_written st ->
     A <> 0 -> (g_pos0 st + start) mod A = 0 -> (forall x, In x l -> A mod galign (gsig x) = 0) ->
@@ -444,12 +444,12 @@ Section P.
       Ok (gwr st (concat (gparts e l (g_written st - start))),
           Some (rev (var_ends (map gsig l) (ends_from (g_written st - start) (gparts e l (g_written st - start)))) ++ o)).
   Proof.
-    induction 1 as [|x l Hx Hl IH]; intros st psigs start o A He Hw Hp Hs Hv Hd Hf Hst HA Hal Hdiv.
+    induction 1 as [|x l Hx Hl IH]; intros st psigs rest start o A He Hw Hp Hs Hv Hd Hf Hst HA Hal Hdiv.
     - cbn [map ser_fields gparts concat ends_from var_ends rev app]. now rewrite gwr_nil.
     - cbn [forallb] in Hw, Hp, Hf.
       apply andb_true_iff in Hw as [Hwx Hw]. apply andb_true_iff in Hp as [Hpx Hp]. apply andb_true_iff in Hf as [Hfx Hf].
       cbn [map ser_fields]. unfold gfield_sig. rewrite Hs.
-      cbn [map]. rewrite nth_error_app2 by lia. rewrite Nat.sub_diag. cbn [nth_error bind].
+      cbn [map]. rewrite nth_error_app2 by lia. rewrite Nat.sub_diag. cbn [app nth_error bind].
       set (sub := gsub_of st (gsig x)).
       rewrite (Hx sub); subst sub; unfold gsub_of; autorewrite with gst; try assumption; try reflexivity.
       cbn [bind].
@@ -462,15 +462,15 @@ Section P.
       rewrite (gset_vsign_none _ _ Hv).
       unfold gfield_done. autorewrite with gst. rewrite Hs. rewrite fixed_sized_spec.
       replace (S (length psigs)) with (length (psigs ++ [gsig x])) by (rewrite app_length; cbn; lia).
-      assert (Hs2 : g_sig (gwr st b) = SStruct ((psigs ++ [gsig x]) ++ map gsig l)).
+      assert (Hs2 : g_sig (gwr st b) = SStruct ((psigs ++ [gsig x]) ++ map gsig l ++ rest)).
       { autorewrite with gst. rewrite Hs. now rewrite <- app_assoc. }
       destruct (gis_fixed (gsig x)) eqn:Hfixx.
-      + rewrite (IH (gwr st b) (psigs ++ [gsig x]) start o A); autorewrite with gst; try assumption.
+      + rewrite (IH (gwr st b) (psigs ++ [gsig x]) rest start o A); autorewrite with gst; try assumption.
         2:{ lia. }
         2:{ intros y Hy. apply Hdiv. now right. }
         replace (g_written st + len b - start) with (off + len b) by (subst off; lia).
         cbn [gparts concat ends_from var_ends]. fold b. rewrite Hfixx. cbn [app]. now rewrite gwr_gwr.
-      + rewrite (IH (gwr st b) (psigs ++ [gsig x]) start _ A); autorewrite with gst; try assumption.
+      + rewrite (IH (gwr st b) (psigs ++ [gsig x]) rest start _ A); autorewrite with gst; try assumption.
         2:{ lia. }
         2:{ intros y Hy. apply Hdiv. now right. }
         replace (g_written st + len b - start) with (off + len b) by (subst off; lia).
@@ -605,7 +605,7 @@ Section P.
     rewrite Hinc. cbn [bind].
     set (st1 := gset_dep (gwr st p) d').
     change 0%nat with (length (@nil sig)).
-    rewrite (fields_ok l HF st1 [] (g_written st + len p) [] A); subst st1; autorewrite with gst; try assumption; try reflexivity.
+    rewrite (fields_ok l HF st1 [] [] (g_written st + len p) [] A); subst st1; autorewrite with gst; rewrite ?app_nil_r; try assumption; try reflexivity.
     2:{ rewrite Hs', Ha', Ht'. assumption. }
     2:{ replace (g_pos0 st + (g_written st + len p)) with (gabs st + len p) by (unfold gabs; lia). assumption. }
     2:{ intros x Hx. apply pow2_div; [apply galigns_pow2|apply galign_pow2|]. apply galigns_ge. subst sigs. now apply in_map. }
@@ -623,7 +623,7 @@ Section P.
     { intros al pss. unfold tuple_bytes. destruct sigs; [congruence|reflexivity]. }
     assert (Hfin : forall b', gset_dep (gwr (gset_dep (gwr st p) d') b') (g_dep st) = gwr st (p ++ b')).
     { intros b'. autorewrite with gpush. f_equal. destruct st; reflexivity. }
-    rewrite app_nil_r. rewrite Htb in Hsmall |- *. fold data ends in Hsmall |- *.
+    rewrite ?app_nil_r. rewrite Htb in Hsmall |- *. fold data ends in Hsmall |- *.
     cbn [node_tail] in Hnt. fold sigs ps data A in Hnt.
     cbn [node_empty_offsets] in Hne. fold sigs ps data ends in Hne.
     destruct (forallb gis_fixed sigs) eqn:Hall.
